@@ -101,6 +101,12 @@ def regroup(t, v):
     k = t[0]
     if k == "T":
         xs, vs = list(t[1]), list(v[1])
+        # same number of tuple nodes, other arities: ((a, b), c, ..) <-> ((a, b, c, ..),)
+        if len(xs) >= 2 and xs[0][0] == "T":
+            return ("T", (("T", tuple(xs[0][1]) + tuple(xs[1:])),)), ("t", (("t", tuple(vs[0][1]) + tuple(vs[1:])),))
+        if len(xs) == 1 and xs[0][0] == "T" and len(xs[0][1]) >= 2:
+            ys, ws = list(xs[0][1]), list(vs[0][1])
+            return ("T", (("T", tuple(ys[:-1])), ys[-1])), ("t", (("t", tuple(ws[:-1])), ws[-1]))
         if len(xs) >= 3:
             return ("T", (("T", tuple(xs[:-1])), xs[-1])), ("t", (("t", tuple(vs[:-1])), vs[-1]))
         if len(xs) == 2 and xs[0][0] == "T" and len(xs[0][1]) >= 1:
